@@ -20,7 +20,6 @@ import (
 	"context"
 	"fmt"
 	"reflect"
-	"regexp"
 	"strings"
 	"sync"
 	"sync/atomic"
@@ -45,8 +44,6 @@ var aggTriggerFuncNames = map[string]bool{
 	"count": true, "sum": true, "avg": true, "min": true, "max": true,
 	"median": true, "stddev": true, "first_value": true, "last_value": true,
 }
-
-var aggCallRe = regexp.MustCompile(`(?i)\b([a-z_]+)\s*\(\s*([^)]*?)\s*\)`)
 
 // GlobalWindow has no built-in boundary and never fires on its own. Each
 // arriving row updates a per-group running aggregate (O(1) state per group,
@@ -110,6 +107,9 @@ type triggerSpec struct {
 	placeholder string
 	aggType     aggregator.AggregateType
 	inputField  string
+	// expr is set when the argument is an expression (sum(v*2) >= 12): the
+	// trigger-only aggregate is fed the expression's per-row value.
+	expr        *types.FieldExpression
 	outputAlias string
 	prototype   aggregator.AggregatorFunction // nil when reusing an output alias
 }
@@ -242,6 +242,9 @@ func (gw *GlobalWindow) buildTrigger(predicate string) error {
 				return fmt.Errorf("TRIGGER WHEN references unsupported aggregate %s", ref.funcName)
 			}
 			spec.prototype = proto
+			if isExpressionArg(spec.inputField) {
+				spec.expr = &types.FieldExpression{Expression: spec.inputField}
+			}
 		}
 		gw.triggerSpecs = append(gw.triggerSpecs, spec)
 
@@ -265,25 +268,113 @@ type triggerAggRefWithMatch struct {
 	matchStr string
 }
 
+// findAggCalls returns the aggregate calls of the predicate in document order.
+// The argument runs to the parenthesis matching the opening one, so it may be an
+// expression with parentheses or function calls of its own (sum((v+w)*2),
+// max(abs(v))); a non-aggregate name in front of a parenthesis (abs, NOT) is
+// passed over and what is inside its parentheses is still searched.
 func (gw *GlobalWindow) findAggCalls(predicate string) []triggerAggRefWithMatch {
 	var out []triggerAggRefWithMatch
-	for _, m := range aggCallRe.FindAllStringSubmatchIndex(predicate, -1) {
-		full := predicate[m[0]:m[1]]
-		name := strings.ToLower(predicate[m[2]:m[3]])
-		arg := strings.TrimSpace(predicate[m[4]:m[5]])
+	n := len(predicate)
+	for i := 0; i < n; {
+		c := predicate[i]
+		if c == '\'' || c == '"' || c == '`' {
+			i = skipQuoted(predicate, i)
+			continue
+		}
+		if !isWordChar(c) {
+			i++
+			continue
+		}
+		start := i
+		for i < n && isWordChar(predicate[i]) {
+			i++
+		}
+		name := strings.ToLower(predicate[start:i])
 		if !aggTriggerFuncNames[name] {
 			continue
 		}
-		field := arg
-		if strings.ToLower(arg) == "*" || arg == "" {
+		open := i
+		for open < n && (predicate[open] == ' ' || predicate[open] == '\t') {
+			open++
+		}
+		if open >= n || predicate[open] != '(' {
+			continue
+		}
+		closing := matchingParen(predicate, open)
+		if closing < 0 {
+			continue
+		}
+		field := strings.TrimSpace(predicate[open+1 : closing])
+		if field == "" {
 			field = "*"
 		}
 		out = append(out, triggerAggRefWithMatch{
 			triggerAggRef: triggerAggRef{funcName: name, inputField: field},
-			matchStr:      full,
+			matchStr:      predicate[start : closing+1],
 		})
+		i = closing + 1
 	}
 	return out
+}
+
+// skipQuoted returns the index after the quoted text that starts at s[i].
+func skipQuoted(s string, i int) int {
+	q := s[i]
+	for i++; i < len(s); i++ {
+		if s[i] == q {
+			return i + 1
+		}
+	}
+	return len(s)
+}
+
+// matchingParen returns the index of the parenthesis closing the one at
+// s[open], or -1. Parentheses inside quoted text do not count.
+func matchingParen(s string, open int) int {
+	depth := 0
+	for i := open; i < len(s); {
+		switch s[i] {
+		case '\'', '"', '`':
+			i = skipQuoted(s, i)
+			continue
+		case '(':
+			depth++
+		case ')':
+			depth--
+			if depth == 0 {
+				return i
+			}
+		}
+		i++
+	}
+	return -1
+}
+
+// isExpressionArg reports whether an aggregate argument is an expression to
+// evaluate per row rather than a column name or field path to look up.
+func isExpressionArg(arg string) bool {
+	return arg != "*" && strings.ContainsAny(arg, " \t+-*/%()<>=!&|,")
+}
+
+// compactExpr drops the white space outside quoted text, so "v*2" and the
+// parser's "v * 2" compare equal.
+func compactExpr(e string) string {
+	var b strings.Builder
+	for i := 0; i < len(e); {
+		switch c := e[i]; c {
+		case '\'', '"', '`':
+			end := skipQuoted(e, i)
+			b.WriteString(e[i:end])
+			i = end
+		case ' ', '\t', '\n', '\r':
+			i++
+		default:
+			b.WriteByte(c)
+			i++
+		}
+	}
+	return b.String()
 }
 
 // normalizeTriggerPredicate rewrites SQL logical/equality operators to expr-lang
@@ -388,10 +479,18 @@ func isOpChar(c byte) bool {
 // or -1. count(*) is matched by inputField=="*".
 func (gw *GlobalWindow) findOutputSpec(aggType aggregator.AggregateType, inputField string) int {
 	for i := range gw.outputSpecs {
-		if gw.outputSpecs[i].expr != nil {
-			continue // sum(v*2) is not sum(v), although v is its input field
+		spec := &gw.outputSpecs[i]
+		if spec.aggType != aggType {
+			continue
 		}
-		if gw.outputSpecs[i].aggType == aggType && normalizeField(gw.outputSpecs[i].inputField) == normalizeField(inputField) {
+		if spec.expr != nil {
+			// sum(v*2) is matched by its expression, never by its input field v
+			if compactExpr(spec.expr.Expression) == compactExpr(inputField) {
+				return i
+			}
+			continue
+		}
+		if normalizeField(spec.inputField) == normalizeField(inputField) {
 			return i
 		}
 	}
@@ -484,7 +583,7 @@ func (gw *GlobalWindow) processRow(row types.Row) {
 	}
 
 	gw.feedAggs(gs.outputAggs, gw.outputSpecs, data)
-	feedTriggerAggs(gs.triggerAggs, gw.triggerSpecs, data)
+	gw.feedTriggerAggs(gs.triggerAggs, gw.triggerSpecs, data)
 
 	if gw.shouldFire(gs) {
 		result := gw.buildResult(gs)
@@ -694,13 +793,19 @@ func (gw *GlobalWindow) feedAggs(target map[string]aggregator.AggregatorFunction
 
 // feedTriggerAggs feeds row values into trigger-only aggregators (those not
 // bound to a SELECT output alias).
-func feedTriggerAggs(target map[string]aggregator.AggregatorFunction, specs []triggerSpec, data map[string]any) {
+func (gw *GlobalWindow) feedTriggerAggs(target map[string]aggregator.AggregatorFunction, specs []triggerSpec, data map[string]any) {
 	for _, spec := range specs {
 		if spec.prototype == nil {
 			continue // value comes from an output alias
 		}
 		agg := target[spec.placeholder]
 		if agg == nil {
+			continue
+		}
+		if spec.expr != nil {
+			if val, err := gw.evalExpression(*spec.expr, data); err == nil && val != nil {
+				agg.Add(val)
+			}
 			continue
 		}
 		if spec.inputField == "*" {
